@@ -421,7 +421,7 @@ def expand(blob, tier, acc):
         acc.validated += 1
         if m.canon() != m0.canon():
             acc.nontriv_fast((repr(m0.canon()), repr(ev)))
-        key = (m.canon(), index_key(circ, m)) if MERGE else (layout, hist + (ev,))
+        key = (m.canon(), index_key(circ, m)) if MERGE else core.jdump([list(layout), [list(e) for e in hist + (ev,)]])
         res.append((key, (layout, hist + (ev,))))
     return res
 
